@@ -80,7 +80,7 @@ def run_summary(run, upto=None):
 
 
 def report_failures(ctx, pid, failures, extra_families=()):
-    fam = set(FAMILY[pid])
+    fam = set(FAMILY[pid]) | {"Malformed", "WrongDimensionInBatch"}
     for f in extra_families:
         fam |= set(f)
     n = 0
